@@ -37,14 +37,25 @@ class Other(connector.SubprocessConnector, linux.Bash):
     name = "other"
 
 
+class LabAsh(connector.SubprocessConnector, linux.Ash):
+    name = "lab-ash"
+
+
+class OtherAsh(connector.SubprocessConnector, linux.Ash):
+    name = "other-ash"
+
+
 def hosts():
     h0 = Lab()
     h1 = h0.clone()          # a clone: the same host
     h2 = Other()             # a different machine
-    return [h0, h1, h2]
+    h3 = LabAsh()            # machines with the other shell class (its own escape())
+    h4 = h3.clone()
+    h5 = OtherAsh()
+    return [h0, h1, h2, h3, h4, h5]
 
 
-HOSTID = [0, 0, 1]           # identity of the "original" machine, as the model sees it
+HOSTID = [0, 0, 1, 2, 2, 3]  # identity of the "original" machine, as the model sees it
 
 
 def s2l(s):
@@ -305,8 +316,10 @@ class EscapeSuite(Suite):
     model_fn = None
 
     def gen(self, tier, rng):
-        for hidx in (0, 1, 2):
-            for mach in (0, 1, 2):
+        for hidx in (0, 1, 2, 3, 4, 5):
+            for mach in (0, 1, 2, 3, 4, 5):
+                if hidx > 2 and mach > 2 and (hidx, mach) not in ((3, 3), (3, 4), (4, 3), (5, 3), (3, 5)):
+                    continue
                 for x in ["/tmp/a b", "rel/x", "/", "//x/y", "/a'b"]:
                     for kind in ("escape", "RedirStdout", "RedirStderr", "RedirBoth", "AppendStdout", "AppendStderr", "AppendBoth",
                                  "RedirStdin", "Background-out", "Background-err"):
